@@ -70,7 +70,13 @@ class FileWriter(AbstractWriter):
 
         try:
             fd, tfile = tempfile.mkstemp(dir=self._path)
-            os.write(fd, encode(data))
+            octets = encode(data)
+            while octets:
+                # write() may store less than it was given
+                written = os.write(fd, octets)
+                if not written:
+                    raise IOError('no progress writing %s' % tfile)
+                octets = octets[written:]
             os.close(fd)
             os.rename(tfile, filename)
 
